@@ -246,14 +246,17 @@ def h_rtx(ctx, plen, ncsrc):
     )
     p.csrc = [ctx.int("csrc%d" % i, 0, U32) for i in range(ncsrc)]
     p.extensions = HeaderExtensions(abs_send_time=ctx.int("ast", 0, U24))
+    p.padding_size = ctx.int("padding_size", 0, 255)
     rpt, rseq, rssrc = ctx.int("rtx_pt", 0, 127), ctx.int("rtx_seq", 0, U16), ctx.int("rtx_ssrc", 0, U32)
     r = rtp.wrap_rtx(p, payload_type=rpt, sequence_number=rseq, ssrc=rssrc)
     ctx.check(sx.And(sx.eq(r.payload_type, rpt), sx.eq(r.sequence_number, rseq), sx.eq(r.ssrc, rssrc)), "rtx-header")
     # through the wire as well
-    r2 = RtpPacket.parse(r.serialize())
+    m = _ext_map(ctx, 8, 0)  # abs-send-time, one-byte form
+    r2 = RtpPacket.parse(r.serialize(m), m)
     q = rtp.unwrap_rtx(r2, payload_type=p.payload_type, ssrc=p.ssrc)
-    for f in ("marker", "payload_type", "sequence_number", "timestamp", "ssrc"):
+    for f in ("marker", "payload_type", "sequence_number", "timestamp", "ssrc", "padding_size"):
         ctx.check(sx.eq(getattr(q, f), getattr(p, f)), "rtx-field-" + f)
+    ctx.check(sx.eq(q.extensions.abs_send_time, p.extensions.abs_send_time), "rtx-extensions")
     ctx.check(sx.eq(q.payload, p.payload), "rtx-payload")
     ctx.check(sx.deep_eq(q.csrc, p.csrc), "rtx-csrc")
     ctx.observe("payload", q.payload)
